@@ -335,3 +335,34 @@ def hoist_tests(src: str) -> str:
     tree = T().visit(tree)
     ast.fix_missing_locations(tree)
     return ast.unparse(tree) + "\n"
+
+
+def split_conjunctions(src: str) -> str:
+    """A seventh behaviour-preserving rewrite: inside function bodies `if A and B: X` without else becomes
+    `if A: if B: X` (short-circuit order kept)."""
+    tree = ast.parse(src)
+
+    class T(ast.NodeTransformer):
+        def __init__(self):
+            self.fn = 0
+
+        def visit_FunctionDef(self, node):
+            self.fn += 1
+            self.generic_visit(node)
+            self.fn -= 1
+            return node
+
+        visit_AsyncFunctionDef = visit_FunctionDef
+
+        def visit_If(self, node):
+            self.generic_visit(node)
+            if self.fn and not node.orelse and isinstance(node.test, ast.BoolOp) and isinstance(node.test.op, ast.And) and len(node.test.values) >= 2:
+                first, rest = node.test.values[0], node.test.values[1:]
+                inner_test = rest[0] if len(rest) == 1 else ast.BoolOp(op=ast.And(), values=rest)
+                inner = ast.copy_location(ast.If(test=inner_test, body=node.body, orelse=[]), node)
+                node.test, node.body = first, [inner]
+            return node
+
+    tree = T().visit(tree)
+    ast.fix_missing_locations(tree)
+    return ast.unparse(tree) + "\n"
